@@ -26,13 +26,23 @@ func (m *collection) NotifyMerger(kind string, synchronous bool) error {
 		pongCh = make(chan struct{})
 	}
 
-	m.pingMergerCh <- ping{
+	select {
+	case m.pingMergerCh <- ping{
 		kind:   kind,
 		pongCh: pongCh,
+	}:
+	case <-m.stopCh:
+		return ErrClosed
 	}
 
 	if pongCh != nil {
-		<-pongCh
+		// A ping that is still queued when the merger exits is never
+		// answered, so also give up when the collection is closed.
+		select {
+		case <-pongCh:
+		case <-m.stopCh:
+			return ErrClosed
+		}
 	}
 
 	atomic.AddUint64(&m.stats.TotNotifyMergerEnd, 1)
